@@ -257,6 +257,36 @@ fn gen_cases(tier: Tier) -> Vec<Case> {
             }
         }
     }
+    // flat chains of forward references: m siblings, each positioned relative to the NEXT one, so the
+    // retry loop makes ~m^2/2 failed attempts; none of them may consume nesting depth
+    for &l in &[3u32, 5, 10] {
+        for via in [false, true] {
+            for m in [2u32, l, l + 1, 3 * l] {
+                for (name, open, close) in [("plain", "", ""), ("content", ">t</rect", "")] {
+                    let mut body = String::from("<svg>");
+                    for i in 0..m {
+                        if name == "plain" {
+                            body.push_str(&format!("<rect id=\"f{i}\" xy=\"#f{}|h\" wh=\"1\"/>", i + 1));
+                        } else {
+                            body.push_str(&format!("<rect id=\"f{i}\" xy=\"#f{}|h\" wh=\"1\">t</rect>", i + 1));
+                        }
+                    }
+                    let _ = (open, close);
+                    body.push_str(&format!("<rect id=\"f{m}\" wh=\"1\"/></svg>"));
+                    let (doc, cfg) = with_limit("depth", l, via, &body);
+                    v.push(Case {
+                        family: format!("flat/forward-chain-{name}"),
+                        doc,
+                        cfg,
+                        expect: Some(m as usize + 1),
+                        unasserted: false,
+                        param: m as i64,
+                        limit: l as i64,
+                    });
+                }
+            }
+        }
+    }
     // ---------------- loop limit
     for &l in &limits(tier) {
         for via in [false, true] {
